@@ -129,6 +129,127 @@ Proof.
   constructor; [unfold spelled_ok; cbn; discriminate|exact H3].
 Qed.
 
+(* the query part: re-encoding with '%' kept never changes what the query decodes to.  Existing escapes pass through
+   untouched (hex digits are unreserved), a literal '%' stays literal, every other byte is either kept or escaped. *)
+Definition PCT : byte := "%"%char.
+
+Lemma pct_decode_nonpct c X : c <> PCT -> pct_decode (c :: X) = c :: pct_decode X.
+Proof.
+  intros H. destruct X as [|h1 [|h2 r]]; cbn [pct_decode]; try reflexivity.
+  destruct (Ascii.eqb c "%"%char) eqn:E; [apply Ascii.eqb_eq in E; contradiction | reflexivity].
+Qed.
+
+Lemma pct_decode_escape h1 h2 r a b :
+  hex_val h1 = Some a -> hex_val h2 = Some b -> pct_decode (PCT :: h1 :: h2 :: r) = ascii_of_N (a * 16 + b) :: pct_decode r.
+Proof. intros H1 H2. cbn [pct_decode]. unfold PCT. rewrite Ascii.eqb_refl, H1, H2. reflexivity. Qed.
+
+(* a '%' that is not followed by two hex digits is literal *)
+Definition two_hex (X : bytes) : bool :=
+  match X with
+  | h1 :: h2 :: _ => match hex_val h1, hex_val h2 with Some _, Some _ => true | _, _ => false end
+  | _ => false
+  end.
+
+Lemma pct_decode_literal X : two_hex X = false -> pct_decode (PCT :: X) = PCT :: pct_decode X.
+Proof.
+  intros H. destruct X as [|h1 [|h2 r]]; cbn [pct_decode]; try reflexivity.
+  unfold PCT. rewrite Ascii.eqb_refl. cbn in H.
+  destruct (hex_val h1), (hex_val h2); try discriminate; reflexivity.
+Qed.
+
+Lemma byte_sweep (P : byte -> bool) :
+  forallb (fun n => P (ascii_of_N n)) (map N.of_nat (seq 0 256)) = true -> forall c, P c = true.
+Proof.
+  intros H c. rewrite forallb_forall in H.
+  assert (Hin : In (N_of_ascii c) (map N.of_nat (seq 0 256))).
+  { apply in_map_iff. exists (N.to_nat (N_of_ascii c)). split; [apply N2Nat.id|].
+    apply in_seq. pose proof (N_ascii_bounded c). lia. }
+  specialize (H _ Hin). rewrite ascii_N_embedding in H. exact H.
+Qed.
+
+Lemma hex_is_unreserved c : match hex_val c with Some _ => is_unreserved c | None => true end = true.
+Proof.
+  apply (byte_sweep (fun c => match hex_val c with Some _ => is_unreserved c | None => true end)).
+  vm_compute. reflexivity.
+Qed.
+
+Lemma pct_byte_decodes c r : pct_decode (pct_byte c ++ r) = c :: pct_decode r.
+Proof.
+  revert r. pattern c.
+  assert (G : forall c, (let n := N_of_ascii c in
+             match hex_val (hex_digit (N.div n 16)), hex_val (hex_digit (N.modulo n 16)) with
+             | Some a, Some b => Ascii.eqb (ascii_of_N (a * 16 + b)) c
+             | _, _ => false
+             end) = true).
+  { apply (byte_sweep (fun c => let n := N_of_ascii c in
+             match hex_val (hex_digit (N.div n 16)), hex_val (hex_digit (N.modulo n 16)) with
+             | Some a, Some b => Ascii.eqb (ascii_of_N (a * 16 + b)) c
+             | _, _ => false
+             end)). vm_compute. reflexivity. }
+  intros r. specialize (G c). cbn zeta in G. unfold pct_byte. cbn [app].
+  destruct (hex_val (hex_digit (N_of_ascii c / 16))) as [a|] eqn:Ea; [|discriminate].
+  destruct (hex_val (hex_digit (N_of_ascii c mod 16))) as [b|] eqn:Eb; [|discriminate].
+  apply Ascii.eqb_eq in G.
+  change ("%"%char) with PCT. rewrite (pct_decode_escape _ _ r a b Ea Eb), G. reflexivity.
+Qed.
+
+Lemma pct_byte_head_not_two_hex c r : two_hex (pct_byte c ++ r) = false.
+Proof. unfold pct_byte. cbn. reflexivity. Qed.
+
+Section QueryKeep.
+Variable keep : bytes.
+Hypothesis Hpct : existsb (Ascii.eqb PCT) keep = true.
+
+Definition keeps (c : byte) : bool := is_unreserved c || existsb (Ascii.eqb c) keep.
+
+Lemma to_pct_cons c b : to_pct keep (c :: b) = (if keeps c then [c] else pct_byte c) ++ to_pct keep b.
+Proof. reflexivity. Qed.
+
+Lemma keeps_hex c a : hex_val c = Some a -> keeps c = true.
+Proof. intros H. pose proof (hex_is_unreserved c) as G. rewrite H in G. unfold keeps. rewrite G. reflexivity. Qed.
+
+Lemma not_keeps_not_pct c : keeps c = false -> c <> PCT.
+Proof. intros H E. subst c. unfold keeps in H. rewrite Hpct, orb_true_r in H. discriminate. Qed.
+
+(* the first two bytes of the re-encoding are two hex digits only if those of the original were *)
+Lemma two_hex_to_pct r : two_hex r = false -> two_hex (to_pct keep r) = false.
+Proof.
+  intros H. destruct r as [|h1 r]; [reflexivity|]. rewrite to_pct_cons.
+  destruct (keeps h1) eqn:K1; [|apply pct_byte_head_not_two_hex].
+  cbn [app]. destruct r as [|h2 r]; [reflexivity|]. rewrite to_pct_cons.
+  destruct (keeps h2) eqn:K2.
+  - cbn [app two_hex] in *. exact H.
+  - unfold pct_byte. cbn [app two_hex]. destruct (hex_val h1); reflexivity.
+Qed.
+
+Theorem query_decodes_the_same : forall n q, (length q <= n)%nat -> pct_decode (to_pct keep q) = pct_decode q.
+Proof.
+  induction n as [|n IH]; intros q Hn.
+  - destruct q; [reflexivity | cbn in Hn; lia].
+  - destruct q as [|c r]; [reflexivity|]. cbn [length] in Hn.
+    rewrite to_pct_cons.
+    destruct (Ascii.eqb c PCT) eqn:Ec.
+    + apply Ascii.eqb_eq in Ec. subst c.
+      assert (K : keeps PCT = true) by (unfold keeps; rewrite Hpct; apply orb_true_r).
+      rewrite K. cbn [app].
+      destruct (two_hex r) eqn:T.
+      * destruct r as [|h1 [|h2 r']]; try discriminate. cbn [two_hex] in T.
+        destruct (hex_val h1) as [a|] eqn:E1; [|discriminate]. destruct (hex_val h2) as [b|] eqn:E2; [|discriminate].
+        rewrite !to_pct_cons, (keeps_hex _ _ E1), (keeps_hex _ _ E2). cbn [app].
+        rewrite !(pct_decode_escape _ _ _ a b E1 E2). f_equal. apply IH. cbn [length] in Hn. lia.
+      * rewrite (pct_decode_literal _ T), (pct_decode_literal _ (two_hex_to_pct r T)). f_equal. apply IH. lia.
+    + assert (Hc : c <> PCT) by (intros E; subst c; rewrite Ascii.eqb_refl in Ec; discriminate).
+      rewrite (pct_decode_nonpct c r Hc).
+      destruct (keeps c) eqn:K.
+      * cbn [app]. rewrite (pct_decode_nonpct c _ Hc). f_equal. apply IH. lia.
+      * rewrite pct_byte_decodes. f_equal. apply IH. lia.
+Qed.
+End QueryKeep.
+
+(* the query written upstream decodes to what the client's query decodes to *)
+Theorem upstream_query_same q : pct_decode (to_pct QUERY_KEEP q) = pct_decode q.
+Proof. apply (query_decodes_the_same QUERY_KEEP eq_refl (length q) q). apply le_n. Qed.
+
 (* ---- C12: headers -------------------------------------------------------------------------------- *)
 
 Definition not_xff (kv : bytes * bytes) : bool := negb (ieq (fst kv) (B "X-Forwarded-For")).
